@@ -59,3 +59,69 @@ def switch_table(item):
     """A9: for a fn that is `match x { A => K1, B => K2 }` over an enum discriminant: {discr value: returned term}"""
     from .symex import Engine
     return None
+
+
+def local_index(item, name):
+    xs = [i for i, l in enumerate(item.locals) if l["name"] == name]
+    return xs[0] if xs else None
+
+
+def carried_value(item, b, name):
+    """value of the loop-carried variable `name` at the back edge of path b"""
+    i = local_index(item, name)
+    if i is None:
+        return None
+    return b.store.get((b.frame, i))
+
+
+def range_var(t):
+    """if t is the item of `for i in a..b` (unwrap(Range::next(phi iter))) return (a, b) else None"""
+    if isinstance(t, tuple) and t and t[0] == "unwrap" and isinstance(t[1], tuple) and t[1][0] == "call" \
+            and re.search(r"Iterator for std::ops::Range<A>>::next$", t[1][1]):
+        it = t[1][2][0]
+        if isinstance(it, tuple) and it[0] == "phi":
+            init = it[4]
+            if isinstance(init, tuple) and init[0] == "adt" and init[1].endswith("ops::Range"):
+                return (init[4][0], init[4][1])
+    return None
+
+
+def norm_loopvars(t):
+    """replace range-loop items by ('i', lo, hi) for readable, comparable loop-body terms"""
+    from .symex import subst, subterms
+    m = {}
+    for s in subterms(t):
+        rv = range_var(s)
+        if rv is not None:
+            m[s] = ("i", rv[0], rv[1])
+    return subst(t, m) if m else t
+
+
+def prim(fb, name, *args, **kw):
+    """the value a workspace function returns for symbolic arguments (exactly one non-panicking return path required)"""
+    from .facts import MissingAnchor
+    it = fb.need(name)
+    eng = Engine(fb, inline=kw.get("inline"))
+    ps = ret_paths(eng.run(it, args=list(args)))
+    if len(ps) != 1:
+        raise MissingAnchor("%s is specified as straight-line, found %d return paths" % (name, len(ps)))
+    return eng.value_of(ps[0].store, ps[0].ret)
+
+
+def sl(b, lo, hi):
+    return ("slice", b, mk_const("usize", lo), mk_const("usize", hi) if hi is not None else None)
+
+
+def find_input(p, param):
+    """the Vec filled by read_to_end from reader parameter `param`"""
+    for c in p.calls(r"::read_to_end$"):
+        if c[2][0] == P(param):
+            return ("upd", c[1], 1, c[2])
+    return None
+
+
+def H(*xs):
+    return call("rln::hashers::poseidon_hash", ("array", tuple(xs)))
+
+
+OPAQUE_H = opaque_rx(r"^rln::hashers::poseidon_hash$")
